@@ -208,7 +208,7 @@ func (d *Desc) validate(ctx int, depth int) error {
 		}
 		return nil
 	case KStruct:
-		if len(d.Fields) > 16 {
+		if len(d.Fields) > 40 {
 			return fmt.Errorf("too many fields")
 		}
 		seen := map[[2]uint64]bool{}
